@@ -6,8 +6,10 @@ package absint
 import (
 	"fmt"
 	"go/types"
+	"os"
 	"sort"
 	"strings"
+	"time"
 
 	"golang.org/x/tools/go/ssa"
 
@@ -53,9 +55,9 @@ type Analyzer struct {
 	OnReturn func(fn *ssa.Function, st *State, val Term) // top-level entry returns
 	OnCall   func(a *Analyzer, st *State, site ssa.CallInstruction, callee *ssa.Function, args []Term)
 	// Recorded reads of input bytes etc. are available through atoms (Op/Args).
-	steps    int
-	MaxSteps int
-	entryFn  *ssa.Function
+	steps           int
+	MaxSteps        int
+	entryFn         *ssa.Function
 	strBases        map[string]*Base
 	freshObjs       map[int]bool
 	lastMergedExtra Term
@@ -67,9 +69,23 @@ type Analyzer struct {
 	DynTargets func(c *ssa.CallCommon) []*ssa.Function
 	// PureHelpers: repo functions whose results keep a structural description.
 	PureHelpers map[string]bool
-	allFuncs  map[*ssa.Function]bool
-	live      map[*ssa.Function]*liveInfo
-	rootStack []*rootSet
+	// E2 taint tracking
+	Track         map[int]bool
+	Stored        map[Loc]bool
+	taint         map[int]map[Loc]bool
+	initTerm      map[Loc]Term
+	TaintBranches []TaintBranch
+	// Impls lists the repo types implementing an interface (dynamic dispatch alternatives).
+	Impls     func(iface types.Type) []types.Type
+	ifaceRecv map[string]Term
+	// Opaque selects repo functions that are not inlined (verified separately as entries).
+	Opaque          func(fn *ssa.Function) bool
+	OpaqueUsed      map[*ssa.Function]int
+	Deadline        time.Time
+	RangeFuncExempt int
+	allFuncs        map[*ssa.Function]bool
+	live            map[*ssa.Function]*liveInfo
+	rootStack       []*rootSet
 	// OnWrite observes binary.PutUintN writes (layout extraction of encoders).
 	OnWrite func(st *State, dst *Slice, width int64, val Term)
 }
@@ -87,7 +103,7 @@ func New(p *load.Program) *Analyzer {
 		Reach: map[*ssa.Function]bool{}, GoTargets: map[*ssa.Function]bool{}, AssumedTotal: map[string]int{},
 		Analysed: map[*ssa.Function]int{}, MaxSteps: 4_000_000,
 		strBases: map[string]*Base{}, freshObjs: map[int]bool{}, locTypes: map[Loc]types.Type{}, strEq: map[int][2]*Slice{},
-		live: map[*ssa.Function]*liveInfo{}, boolSrc: map[int]*BoolSrc{}, sentinelCache: map[*ssa.Global]bool{}, PureHelpers: map[string]bool{}}
+		live: map[*ssa.Function]*liveInfo{}, Track: map[int]bool{}, Stored: map[Loc]bool{}, taint: map[int]map[Loc]bool{}, initTerm: map[Loc]Term{}, ifaceRecv: map[string]Term{}, OpaqueUsed: map[*ssa.Function]int{}, boolSrc: map[int]*BoolSrc{}, sentinelCache: map[*ssa.Global]bool{}, PureHelpers: map[string]bool{}}
 }
 
 func (a *Analyzer) id() int { a.nextID++; return a.nextID }
@@ -292,6 +308,8 @@ func (a *Analyzer) RunEntry(fn *ssa.Function, st *State, args []Term, bindings [
 
 var errBudget = fmt.Errorf("budget")
 
+var debugLoop = os.Getenv("JTVERIF_DEBUGLOOP") != ""
+
 func (a *Analyzer) runFunc(fn *ssa.Function, st *State, args []Term, bindings []Term, depth int) []retState {
 	a.Analysed[fn]++
 	a.stack = append(a.stack, fn)
@@ -407,12 +425,12 @@ func (a *Analyzer) takeEdge(from, to *ssa.BasicBlock, st *State) *State {
 // ---- loops ------------------------------------------------------------------------
 
 type phiComp struct {
-	phi   *ssa.Phi
-	alpha *Atom // integer φ (or slice length)
-	kind  int   // 0 int, 1 slice(len only), 2 other
-	base  *Base // slice: stable base or fresh
-	offA  *Atom
-	entry Lin // entry value (int: value; slice: len)
+	phi      *ssa.Phi
+	alpha    *Atom // integer φ (or slice length)
+	kind     int   // 0 int, 1 slice(len only), 2 other
+	base     *Base // slice: stable base or fresh
+	offA     *Atom
+	entry    Lin // entry value (int: value; slice: len)
 	entryOff Lin
 	baseVar  bool
 }
@@ -579,6 +597,28 @@ func (a *Analyzer) runLoop1(fr *frame, h *ssa.BasicBlock, body map[*ssa.BasicBlo
 		ex, backs, rs := a.runRegion(fr, h, []*State{S}, body, true)
 		sink := a.popSink()
 		changed := false
+		// taint of loop-carried values: entry and back-edge values
+		for _, c := range comps {
+			for _, B := range backs {
+				switch c.kind {
+				case 0:
+					a.propagate(Int{AtomLin(c.alpha)}, E.Env[c.phi], B.Env[c.phi])
+				case 1:
+					a.propagate(&Slice{Base: c.base, Off: AtomLin(c.offA), Len: AtomLin(c.alpha)}, E.Env[c.phi], B.Env[c.phi])
+				default:
+					if u, ok := otherPhi[c.phi]; ok {
+						a.propagate(u, E.Env[c.phi], B.Env[c.phi])
+					}
+				}
+			}
+		}
+		for loc, u := range heapVar {
+			for _, B := range backs {
+				if bv, ok := B.Heap[loc]; ok {
+					a.propagate(u, bv)
+				}
+			}
+		}
 		for _, c := range comps {
 			switch c.kind {
 			case 2:
@@ -722,7 +762,11 @@ func (a *Analyzer) runLoop1(fr *frame, h *ssa.BasicBlock, body map[*ssa.BasicBlo
 				if !ok || bv.TKey() != v.TKey() {
 					if _, done := heapVar[loc]; !done {
 						heapVar[loc] = a.havocTerm(loc, v)
+						a.propagate(heapVar[loc], v, bv)
 						changed = true
+						if debugLoop {
+							fmt.Printf("  loop %s iter %d: heap loc o%d%s varies (%s vs %v)\n", a.P.RelPos(h.Instrs[0].Pos()), iter, loc.Obj, loc.Path, v.TKey(), bv)
+						}
 					}
 					break
 				}
@@ -734,10 +778,23 @@ func (a *Analyzer) runLoop1(fr *frame, h *ssa.BasicBlock, body map[*ssa.BasicBlo
 				if _, ok := headHeap[loc]; ok {
 					continue
 				}
+				if strings.HasPrefix(loc.Path, "[") || strings.HasPrefix(loc.Path, "?[") {
+					// cached map lookups; updates are tracked through the #nonempty marker
+					continue
+				}
 				if a.freshObjs[loc.Obj] && loc.Obj <= firstID {
+					if t, ok := a.locTypes[loc]; ok {
+						if z := a.zeroOf(t); sameValue(z, bv) {
+							continue // still holds its zero value
+						}
+					}
 					if _, done := heapVar[loc]; !done {
 						heapVar[loc] = a.havocTerm(loc, bv)
+						a.propagate(heapVar[loc], bv)
 						changed = true
+						if debugLoop {
+							fmt.Printf("  loop %s iter %d: new heap loc o%d%s\n", a.P.RelPos(h.Instrs[0].Pos()), iter, loc.Obj, loc.Path)
+						}
 					}
 				}
 			}
@@ -757,6 +814,15 @@ func (a *Analyzer) runLoop1(fr *frame, h *ssa.BasicBlock, body map[*ssa.BasicBlo
 					changed = true
 				}
 			}
+		}
+		if debugLoop {
+			nd := 0
+			for _, c := range cands {
+				if !c.dead {
+					nd++
+				}
+			}
+			fmt.Printf("  loop %s iter %d: changed=%v cands alive=%d/%d heapVar=%d verVar=%d otherPhi=%d backs=%d\n", a.P.RelPos(h.Instrs[0].Pos()), iter, changed, nd, len(cands), len(heapVar), len(verVar), len(otherPhi), len(backs))
 		}
 		if !changed || iter > 40 {
 			if iter > 40 {
@@ -828,7 +894,57 @@ func (a *Analyzer) mergeStates(sts []*State, extra []Term) []*State {
 	return []*State{acc}
 }
 
+// retClass keeps successful and failing returns apart when return states are merged.
+func retClass(v Term) string {
+	last := v
+	if tu, ok := v.(*Tuple); ok && len(tu.Elems) > 0 {
+		last = tu.Elems[len(tu.Elems)-1]
+	}
+	switch x := last.(type) {
+	case NilT:
+		return "nil"
+	case *Bool:
+		if x.Kind == BConst {
+			if x.Val {
+				return "true"
+			}
+			return "false"
+		}
+	case *Unknown:
+		if x.Nilness == nilNon {
+			return "nonnil"
+		}
+	case *Iface, *Ptr:
+		return "nonnil"
+	}
+	return "?"
+}
+
 func (a *Analyzer) mergeRets(rets []retState) []retState {
+	groups := map[string][]retState{}
+	var order []string
+	for _, r := range rets {
+		k := retClass(r.val)
+		if _, ok := groups[k]; !ok {
+			order = append(order, k)
+		}
+		groups[k] = append(groups[k], r)
+	}
+	if len(order) > 1 {
+		var out []retState
+		for _, k := range order {
+			g := groups[k]
+			if len(g) > a.K/len(order)+1 {
+				g = a.mergeRets1(g)
+			}
+			out = append(out, g...)
+		}
+		return out
+	}
+	return a.mergeRets1(rets)
+}
+
+func (a *Analyzer) mergeRets1(rets []retState) []retState {
 	sts := make([]*State, len(rets))
 	xs := make([]Term, len(rets))
 	for i, r := range rets {
@@ -840,6 +956,14 @@ func (a *Analyzer) mergeRets(rets []retState) []retState {
 }
 
 func (a *Analyzer) joinTerm(x, y Term, t types.Type, eqX, eqY *[]Con, desc string) Term {
+	r := a.joinTerm0(x, y, t, eqX, eqY, desc)
+	if r != nil && (x == nil || r.TKey() != x.TKey()) {
+		a.propagate(r, x, y)
+	}
+	return r
+}
+
+func (a *Analyzer) joinTerm0(x, y Term, t types.Type, eqX, eqY *[]Con, desc string) Term {
 	if x == nil || y == nil {
 		return nil
 	}
@@ -942,6 +1066,7 @@ func (a *Analyzer) join2(x, y *State, ex, ey Term) (*State, Term) {
 			out.Env[k] = t
 		}
 	}
+	heapJoins := 0
 	peek := func(s *State, k Loc) Term {
 		if v, ok := s.Heap[k]; ok {
 			return v
@@ -987,6 +1112,17 @@ func (a *Analyzer) join2(x, y *State, ex, ey Term) (*State, Term) {
 		t := a.locTypes[k]
 		if t == nil {
 			t = termType(xv)
+		}
+		heapJoins++
+		if heapJoins > 24 {
+			// many differing locations: join without relational information
+			var dx, dy []Con
+			if jt := a.joinTerm(xv, yv, t, &dx, &dy, "heap"); jt != nil {
+				out.Heap[k] = jt
+			} else if a.freshObjs[k.Obj] {
+				out.Heap[k] = a.havocTerm(k, xv)
+			}
+			return
 		}
 		if jt := a.joinTerm(xv, yv, t, &eqX, &eqY, "heap"); jt != nil {
 			out.Heap[k] = jt
@@ -1066,6 +1202,14 @@ func (a *Analyzer) join2(x, y *State, ex, ey Term) (*State, Term) {
 			keep(c, X)
 		}
 	}
+	for k, v := range x.Dyn {
+		if w, ok := y.Dyn[k]; ok && w == v {
+			if out.Dyn == nil {
+				out.Dyn = map[int]types.Type{}
+			}
+			out.Dyn[k] = v
+		}
+	}
 	out.Trace = []string{"⊔(merged paths)"}
 	return out, ext
 }
@@ -1088,4 +1232,21 @@ func SortedFuncs(m map[*ssa.Function]bool) []*ssa.Function {
 	}
 	sort.Slice(out, func(i, j int) bool { return out[i].String() < out[j].String() })
 	return out
+}
+
+// sameValue compares two terms for being the same concrete value (ignores identities of
+// freshly made empty bases).
+func sameValue(x, y Term) bool {
+	if x == nil || y == nil {
+		return false
+	}
+	if x.TKey() == y.TKey() {
+		return true
+	}
+	if xs, ok := x.(*Slice); ok {
+		if ys, ok := y.(*Slice); ok {
+			return xs.Nil && ys.Nil
+		}
+	}
+	return false
 }
